@@ -14,6 +14,8 @@
 //        hspmv  b A x alpha beta y : builtin_hybrid<float block>::copy_matrix, mixed spmv_impl, double vectors
 //        bresid / hresid b A f x r : backend::residual, same two ways
 //        bvmul  b X y alpha beta z : backend::vmul, X = float blocks (std::vector<block>), y, z double scalar vectors
+//        sbspmv / sbresid          : SCALAR float matrix, vectors of double b-blocks (viewed as scalars by the mixed
+//                                    overloads); model: the same scalar product (ops hspmv / hresid, C13_hybrid_*_is_scalar)
 //        cview  b n                : re-interpretation of a std::complex<double> vector through complex blocks:
 //                                    number of elements of the view and complex numbers per element
 //  (b) solve level (op mixed): kinds hybrid_fd (float builtin_hybrid AMG under a double hybrid CG), as_block_fd
@@ -74,6 +76,26 @@ template <int b> static std::string mxrun(const std::string &op, Tok &t) {
         return show(z);
     }
     auto S = t.crsT<float>();
+    if (op == "sbspmv" || op == "sbresid") {
+        // SCALAR float matrix, vectors of DOUBLE b-blocks: the mixed overloads view the block vectors as scalars
+        // (reinterpret_as_rhs<float>(vector of static_matrix<double,b,1>) must be a range of double)
+        typedef amgcl::static_matrix<double, b, 1> DR;
+        if (be::rows(*S) % b || be::cols(*S) % b) throw std::runtime_error("not divisible");   // the model's block view
+        auto pack = [](const std::vector<double> &v) { std::vector<DR> V(v.size() / b); for (size_t k = 0; k < V.size() * b; ++k) V[k / b](k % b) = v[k]; return V; };
+        auto flat = [](const std::vector<DR> &V) { std::vector<double> v(V.size() * b); for (size_t k = 0; k < v.size(); ++k) v[k] = V[k / b](k % b); return v; };
+        if (op == "sbspmv") {
+            std::vector<double> x = t.vecT<double>(); double alpha = t.d(), beta = t.d(); std::vector<double> y = t.vecT<double>();
+            if (x.size() % b || y.size() % b) throw std::invalid_argument("sizes");
+            auto X = pack(x); auto Y = pack(y);
+            be::spmv(alpha, *S, X, beta, Y);
+            return show(flat(Y));
+        }
+        std::vector<double> f = t.vecT<double>(), x = t.vecT<double>(), r = t.vecT<double>();
+        if (f.size() % b || x.size() % b || r.size() % b) throw std::invalid_argument("sizes");
+        auto F = pack(f); auto X = pack(x); auto R = pack(r);
+        be::residual(F, *S, X, R);
+        return show(flat(R));
+    }
     if (op == "bspmv" || op == "hspmv") {
         std::vector<double> x = t.vecT<double>(); double alpha = t.d(), beta = t.d(); std::vector<double> y = t.vecT<double>();
         if (op == "bspmv") {
@@ -109,7 +131,7 @@ static std::string mxdispatch(const std::string &op, Tok &t) {
     throw std::invalid_argument("block size");
 }
 #define MX_OP(name) VQ_OP(name) { try { return mxdispatch(#name, t); } catch (const std::exception &e) { return "EXC " + vq::exc_kind(e); } }
-MX_OP(bspmv) MX_OP(hspmv) MX_OP(bresid) MX_OP(hresid) MX_OP(bvmul)
+MX_OP(bspmv) MX_OP(hspmv) MX_OP(bresid) MX_OP(hresid) MX_OP(bvmul) MX_OP(sbspmv) MX_OP(sbresid)
 
 // complex vector viewed through complex b x b blocks: n complex numbers must give n/b elements of b complex numbers
 template <int b> static std::string cview(long n) {
@@ -180,28 +202,55 @@ template <int b> struct MbsPrecond {
     const matrix& system_matrix() const { return *A; }
     std::shared_ptr<matrix> system_matrix_ptr() const { return A; }
 };
+// SPD block system: Poisson (x) I_b + I (x) C, C = 1/4 I + 1/8 (ring adjacency of the b unknowns of a node): symmetric,
+// strictly diagonally dominant node coupling added to the SPD Poisson part (the older generator above couples the
+// unknowns of a node without strengthening the diagonal and is indefinite for larger grids).
+static Sys blocksys(int dim, int m, double eps, int b) {
+    Sys s; ptrdiff_t N = 1; for (int d = 0; d < dim; ++d) N *= m; s.n = N * b; s.ptr.push_back(0);
+    for (ptrdiff_t p = 0; p < N; ++p) for (int k = 0; k < b; ++k) {
+        ptrdiff_t idx[3], q = p; for (int d = 0; d < dim; ++d) { idx[d] = q % m; q /= m; }
+        double diag = 0.25; std::vector<std::pair<ptrdiff_t, double> > e;
+        ptrdiff_t stride = 1;
+        for (int d = 0; d < dim; ++d) {
+            double w = (d == 1 ? eps : 1.0);
+            if (idx[d] > 0)     e.push_back(std::make_pair((p - stride) * b + k, -w));
+            if (idx[d] + 1 < m) e.push_back(std::make_pair((p + stride) * b + k, -w));
+            diag += 2 * w; stride *= m;
+        }
+        e.push_back(std::make_pair(p * b + k, diag));
+        if (b == 2) e.push_back(std::make_pair(p * b + (k + 1) % b, 0.125));
+        if (b > 2) { e.push_back(std::make_pair(p * b + (k + 1) % b, 0.125)); e.push_back(std::make_pair(p * b + (k + b - 1) % b, 0.125)); }
+        std::sort(e.begin(), e.end());
+        for (auto &x : e) { s.col.push_back(x.first); s.val.push_back(x.second); }
+        s.ptr.push_back(s.col.size());
+    }
+    return s;
+}
+// coarse_enough is lowered so that even the small quick-tier systems get a real multi-level hierarchy (smoothers and
+// transfer operators applied to re-interpreted vectors), not a single level with a direct solver
 template <int b> static std::string mixed_reinterp(const std::string &kind, int dim, int m, double eps) {
     using namespace amgcl;
     typedef static_matrix<float, b, b> FB; typedef static_matrix<double, b, b> DB;
-    Sys s = poisson(dim, m, eps, b); std::vector<double> f(s.n, 1.0), x(s.n, 0.0);
+    Sys s = blocksys(dim, m, eps, b); std::vector<double> f(s.n, 1.0), x(s.n, 0.0);
     for (ptrdiff_t i = 0; i < s.n; ++i) f[i] = 1.0 + 0.25 * (i % 3);
     auto A = std::tie(s.n, s.ptr, s.col, s.val);
     if (kind == "hybrid_fd") {
         typedef be::builtin_hybrid<FB> HF; typedef be::builtin_hybrid<DB> HD;
         typedef make_solver< amg<HF, coarsening::smoothed_aggregation, relaxation::spai0>, solver::cg<HD> > S;
-        typename S::params prm; prm.precond.coarsening.aggr.block_size = b;
+        typename S::params prm; prm.precond.coarsening.aggr.block_size = b; prm.precond.coarse_enough = 60;
         S solve(A, prm); return verdict(solve(A, f, x), s, f, x, 100);
     }
     if (kind == "as_block_fd") {
         typedef make_solver< amg<be::builtin<float>, coarsening::smoothed_aggregation,
                                  relaxation::as_block<be::builtin<FB>, relaxation::spai0>::template type>,
                              solver::cg< be::builtin<double> > > S;
-        typename S::params prm; prm.precond.coarsening.aggr.block_size = b;
+        typename S::params prm; prm.precond.coarsening.aggr.block_size = b; prm.precond.coarse_enough = 60;
         S solve(A, prm); return verdict(solve(A, f, x), s, f, x, 100);
     }
     if (kind == "mbs_fd") {
         typedef make_solver< MbsPrecond<b>, solver::cg< be::builtin<double> > > S;
-        S solve(A); return verdict(solve(A, f, x), s, f, x, 100);
+        typename S::params prm; prm.precond.precond.coarse_enough = 30;
+        S solve(A, prm); return verdict(solve(A, f, x), s, f, x, 100);
     }
     throw std::invalid_argument("kind");
 }
@@ -218,21 +267,24 @@ VQ_OP(mixed) {
         Sys s = poisson(dim, m, eps, 1); std::vector<double> f(s.n, 1.0), x(s.n, 0.0);
         typedef make_solver< amg<be::builtin<float>, coarsening::smoothed_aggregation, relaxation::spai0>, solver::cg< be::builtin<double> > > S;
         auto A = std::tie(s.n, s.ptr, s.col, s.val);
-        S solve(A); return verdict(solve(A, f, x), s, f, x, 100);
+        S::params prm; prm.precond.coarse_enough = 100;     // a real hierarchy also for the small quick-tier grids
+        S solve(A, prm); return verdict(solve(A, f, x), s, f, x, 100);
     }
     if (kind == "bicgstab_agg_ilu0") {
         Sys s = poisson(dim, m, eps, 1); std::vector<double> f(s.n, 1.0), x(s.n, 0.0);
         typedef make_solver< amg<be::builtin<float>, coarsening::aggregation, relaxation::ilu0>, solver::bicgstab< be::builtin<double> > > S;
         auto A = std::tie(s.n, s.ptr, s.col, s.val);
-        S solve(A); return verdict(solve(A, f, x), s, f, x, 100);
+        S::params prm; prm.precond.coarse_enough = 100;
+        S solve(A, prm); return verdict(solve(A, f, x), s, f, x, 100);
     }
     if (kind == "block2_cg_sa_spai0") {     // float blocks under double blocks (backend/detail/mixing.hpp)
-        Sys s = poisson(dim, m, eps, 2); std::vector<double> f(s.n, 1.0), x(s.n, 0.0);
+        Sys s = blocksys(dim, m, eps, 2); std::vector<double> f(s.n, 1.0), x(s.n, 0.0);
         typedef static_matrix<float, 2, 2> FB; typedef static_matrix<double, 2, 2> DB; typedef static_matrix<double, 2, 1> DR;
         typedef make_solver< amg<be::builtin<FB>, coarsening::smoothed_aggregation, relaxation::spai0>, solver::cg< be::builtin<DB> > > S;
         auto A = std::tie(s.n, s.ptr, s.col, s.val);
         auto Ab = adapter::block_matrix<DB>(A);
-        S solve(Ab);
+        S::params prm; prm.precond.coarse_enough = 50;
+        S solve(Ab, prm);
         auto F = be::reinterpret_as_rhs<DR>(f); auto X = be::reinterpret_as_rhs<DR>(x);
         return verdict(solve(Ab, F, X), s, f, x, 100);
     }
